@@ -113,4 +113,110 @@ def occRrelLastWins {T : Type} (occs : List (Occ T)) (i : Nat) : Option T :=
   | some o => ((occs.filter (fun o' => o'.attr = o.attr)).getLast?).bind (·.rrel)
   | none => none
 
+/-! ## what the selected provider is called with
+
+`create_rrel_scope_provider(tree_or_string, split_string=None)` builds an object of
+`class RREL` with the attributes `rrel_tree` and `split_string` (textx/scoping/rrel.py):
+```
+def __call__(self, current_obj, attr, obj_ref):
+    if self.split_string is None:
+        rule = get_metamodel(current_obj)[obj_ref.match_rule_name]
+        split = rule._tx_peg_rule.split if hasattr(rule._tx_peg_rule, "split") else "."
+    else:
+        split = self.split_string
+    return find(current_obj, obj_ref.obj_name, self.rrel_tree, obj_cls, split_string=split, …)
+```
+and `find_object_with_path` starts with `lookup_list = lookup_list.split(split_string)`.
+`__call__` assigns no attribute of `self`: the object after a call is the object
+before it (`RrelObj.call` returns it, so that a history of calls can be stated).
+The grammar (`lang.py`, `create_rrel_scope_provider(rrel_tree)`) and
+`register_scope_providers` (`create_rrel_scope_provider(v)`) both build the object
+without `split_string`; a user may register an object built with one.
+
+One provider object may serve many references: several keys bound to the same
+object, a wildcard key, several models loaded by one meta-model.  What `find` is
+asked for must depend on the reference alone. -/
+
+/-- a reference as the provider sees it -/
+structure Ref (T : Type) where
+  /-- class of the object holding the reference -/
+  cls : String
+  attr : String
+  /-- RREL written at the assignment that created the reference -/
+  g : Option T
+  /-- `obj_ref.obj_name`, as matched by the match rule -/
+  name : String
+  /-- `split` parameter of the match rule (`PATH[split='/']`), if it has one -/
+  ruleSplit : Option String
+deriving Repr, DecidableEq
+
+/-- the attributes of an RREL provider object -/
+structure RrelObj (T : Type) where
+  tree : T
+  split : Option String
+deriving Repr, DecidableEq
+
+/-- `split` of `RREL.__call__` -/
+def delimiter (explicit ruleSplit : Option String) : String :=
+  match explicit with
+  | some s => s
+  | none =>
+    match ruleSplit with
+    | some s => s
+    | none => "."
+
+/-- what a provider call amounts to -/
+inductive Call (P T : Type) where
+  /-- a user-supplied callable is called -/
+  | user (p : P)
+  /-- `rrel.find(obj, name.split(delim), tree, …)` -/
+  | find (tree : T) (delim : String) (parts : List String)
+  /-- the default provider is called -/
+  | dflt
+deriving DecidableEq, Repr
+
+/-- `RREL.__call__`: the arguments handed to `find`, and `self` afterwards -/
+def RrelObj.call {P T : Type} (self : RrelObj T) (name : String) (ruleSplit : Option String) :
+    Call P T × RrelObj T :=
+  let split := delimiter self.split ruleSplit
+  (.find self.tree split (name.splitOn split), self)
+
+/-- one provider object called for a list of references (name, `split` of the
+match rule), one after the other, `self` threaded through -/
+def RrelObj.callSeq {P T : Type} (self : RrelObj T) :
+    List (String × Option String) → List (Call P T) × RrelObj T
+  | [] => ([], self)
+  | (name, rs) :: rest =>
+    let (c, self') := self.call (P := P) name rs
+    let (cs, self'') := self'.callSeq rest
+    (c :: cs, self'')
+
+/-- the call made for one reference.  `view p` tells whether the user-supplied
+provider object `p` is an RREL provider object (and which). -/
+def callOf {P T : Type} (order : List KeyExpr) (view : P → Option (RrelObj T)) (d : Dict P T)
+    (r : Ref T) : Call P T :=
+  match select order d r.cls r.attr r.g with
+  | .rrel t => ((RrelObj.mk t none).call r.name r.ruleSplit).1
+  | .custom p =>
+    match view p with
+    | some o => (o.call r.name r.ruleSplit).1
+    | none => .user p
+  | .default => .dflt
+
+/-- one step of a meta-model's life: optionally `register_scope_providers(raw)`
+(replaces the dictionary), then a model whose references are resolved -/
+structure Step (P T : Type) where
+  reg : Option (List (String × RegVal P))
+  refs : List (Ref T)
+
+/-- the calls of a whole history, step by step -/
+def run {P T : Type} (order : List KeyExpr) (view : P → Option (RrelObj T)) (parse : String → T)
+    (d : Dict P T) : List (Step P T) → List (List (Call P T))
+  | [] => []
+  | s :: rest =>
+    let d' := match s.reg with
+      | some raw => register parse raw
+      | none => d
+    (s.refs.map (callOf order view d')) :: run order view parse d' rest
+
 end Select
